@@ -52,8 +52,10 @@ def SocksAdapter_sendReply : List String := ["net.ParseIP", "ip.To4", "ip.To16",
 def SocksAdapter_sendReply_lits : List Nat := [0, 22, 0, 2]
 def UDPRelay_buildUDPHeader : List String := ["net.ParseIP", "ip.To4", "copy", "binary.BigEndian.PutUint16", "copy", "ip.To16", "copy", "binary.BigEndian.PutUint16", "copy", "copy", "binary.BigEndian.PutUint16", "copy"]
 def UDPRelay_buildUDPHeader_lits : List Nat := [10, 0, 0, 1, 0, 2, 0, 3, 4, 8, 8, 10, 10, 22, 0, 0, 1, 0, 2, 0, 3, 4, 20, 20, 22, 22, 5, 2, 0, 0, 1, 0, 2, 0, 3, 4, 5, 5, 5, 5, 2]
+def UDPRelay_handlePacket : List String := ["r.parseUDPHeader", "r.handleDNSQuery", "r.getOrCreateSession", "tunnel.SendPacket"]
 def UDPRelay_parseUDPHeader : List String := ["len", "len", "net.IP", "len", "len", "len", "net.IP", "binary.BigEndian.Uint16"]
 def UDPRelay_parseUDPHeader_lits : List Nat := [4, 0, 2, 0, 0, 2, 3, 10, 0, 4, 8, 10, 5, 0, 4, 5, 2, 0, 5, 5, 5, 2, 22, 0, 4, 20, 22, 0, 2]
+def UDPRelay_readLoop : List String := ["make", "udpConn.ReadFromUDP", "make", "copy", "r.handlePacket"]
 end Skel
 
 end Gen
